@@ -1,5 +1,6 @@
 import MirProofs.Lemmas.PyInt
 import MirProofs.Props.C13
+import MirProofs.Props.C12
 import MirGen.UtilInt
 /-!
   C13 — the interval pre-processing functions of `mir_eval/util.py` as REGENERATED from the source
@@ -478,6 +479,280 @@ theorem adjust_intervals_empty_eq_model (ls : Option (List String)) (tmin tmax :
 
 end intervals
 
+/-! ### interpolate_intervals, intervals_to_samples -/
+
+/-- the rows the hand model works on: labels are `some _`, the fill value may be `None` -/
+def rowsO (xs : LI String) : LI (Option String) := xs.map fun x => (x.1, x.2.1, some x.2.2)
+
+theorem interpolate_loop_eq (tps : List Rat) (xs : LI String) (acc : List (Option String))
+    (hacc : acc.length = tps.length) :
+    Mir.Gen.util.interpolate_intervals_loop1
+        (List.zip (searchsortedLeft tps (col0 (ivals xs)))
+          (List.zip (searchsortedRight tps (col1 (ivals xs))) (labels xs))) acc
+      = .ok ((rowsO xs).foldl (interpolateStep tps) acc) := by
+  induction xs generalizing acc with
+  | nil => rfl
+  | cons x r ih =>
+    have h1 : (tps.countP fun t => decide (t < x.1)) ≤ acc.length := hacc ▸ List.countP_le_length
+    have h2 : (tps.countP fun t => decide (t ≤ x.2.1)) ≤ acc.length := hacc ▸ List.countP_le_length
+    simp only [searchsortedLeft, searchsortedRight, col0, col1, ivals, labels, List.map_cons, List.zip_cons_cons,
+      Mir.Gen.util.interpolate_intervals_loop1, rowsO, List.foldl_cons, interpolateStep, List.map_replicate,
+      sliceAssign_replicate _ _ _ _ h1 h2] at ih ⊢
+    exact ih _ (by rw [length_iv_sliceAssign]; exact hacc)
+
+/-- `util.interpolate_intervals` for ALL labelled interval lists, time grids (sorted or not) and fill values -/
+theorem interpolate_intervals_eq_model (xs : LI String) (tps : List Rat) (fill : Option String) :
+    Mir.Gen.util.interpolate_intervals (ivals xs) (labels xs) tps fill = interpolate (rowsO xs) tps fill := by
+  simp only [Mir.Gen.util.interpolate_intervals, interpolate, anyB_unsorted]
+  by_cases h : isNondecreasing tps = true
+  · have hl : (List.replicate (len tps) fill).length = tps.length := by simp [len]
+    simp [h, interpolate_loop_eq tps xs _ hl, len]
+  · simp [h]
+    rfl
+
+theorem entries_rowsO (xs : LI String) : entries (rowsO xs) = entries xs := by
+  induction xs with
+  | nil => rfl
+  | cons x r ih => simp [rowsO, entries] at ih ⊢; exact ih
+
+/-- `util.intervals_to_samples` for ALL labelled interval lists, offsets, sample sizes (zero and negative included) and
+    fill values; the float32 sample grid is read as the hand model reads it (`i * size + offset`, exactly) -/
+theorem intervals_to_samples_eq_model (xs : LI String) (offset size : Rat) (fill : Option String) :
+    Mir.Gen.util.intervals_to_samples (ivals xs) (labels xs) offset size fill
+      = intervalsToSamples (rowsO xs) offset size fill := by
+  simp only [Mir.Gen.util.intervals_to_samples, intervalsToSamples, entries_rowsO, maxOf]
+  rw [show ravel (ivals xs) = entries xs from by
+    induction xs with
+    | nil => rfl
+    | cons x r ih => simp [ravel, ivals, entriesP, entries] at ih ⊢; exact ih]
+  rcases hm : maxL (entries xs) with _ | m
+  · rfl
+  · by_cases hs : size = 0
+    · by_cases h0 : m = 0 <;> simp [hs, h0, intFloorDivNp]
+    · have ht : (List.map (fun v => v + offset) (List.map (fun i : Nat => (i : Rat) * size) (arangeInt (m / size).floor)))
+          = sampleTimes (m / size).floor.toNat size offset := by
+        simp [arangeInt, sampleTimes, List.map_map, Function.comp_def]
+      simp only [hs, intFloorDivNp, if_false, ok_bind, ht, interpolate_intervals_eq_model]
+      cases interpolate (rowsO xs) (sampleTimes (m / size).floor.toNat size offset) fill <;> rfl
+
+/-! ### merge_labeled_intervals -/
+
+/-- one output row of the hand model -/
+def mergeRow (x y : LI String) (pq : Rat × Rat) : Py (Rat × Rat × String × String) :=
+  match lastStarted x pq.1, lastStarted y pq.1 with
+  | some lx, some ly => .ok (pq.1, pq.2, lx, ly)
+  | _, _ => .error .indexError
+
+theorem mergeRows_eq (x y : LI String) (bs : List Rat) : mergeRows x y bs = (pairs bs).mapM (mergeRow x y) := by
+  unfold mergeRows
+  congr 1
+  funext pq
+  unfold mergeRow
+  rcases lastStarted x pq.1 with _ | lx <;> rcases lastStarted y pq.1 with _ | ly <;> rfl
+
+theorem mergeRow_mapM_fst (x y : LI String) (P : Ivals) {out : List (Rat × Rat × String × String)}
+    (h : P.mapM (mergeRow x y) = .ok out) : out.map (fun r => (r.1, r.2.1)) = P := by
+  refine mapM_ok_inv (mergeRow x y) (fun r => (r.1, r.2.1)) ?_ P h
+  intro p r hr
+  unfold mergeRow at hr
+  rcases hx : lastStarted x p.1 with _ | lx <;> rcases hy : lastStarted y p.1 with _ | ly <;>
+    simp only [hx, hy] at hr <;> cases hr
+  rfl
+
+theorem merge_loop_eq (x y : LI String) (P : Ivals) (ax ay : List String) :
+    Mir.Gen.util.merge_labeled_intervals_loop1 (arange (len (labels x))) (ivals x) (labels x)
+        (arange (len (labels y))) (ivals y) (labels y) P ax ay
+      = (P.mapM (mergeRow x y)).map fun out => (ax ++ out.map (·.2.2.1), ay ++ out.map (·.2.2.2)) := by
+  induction P generalizing ax ay with
+  | nil => simp [Mir.Gen.util.merge_labeled_intervals_loop1, Except.map, pure, Except.pure]
+  | cons pq P ih =>
+    obtain ⟨t0, t1⟩ := pq
+    simp only [Mir.Gen.util.merge_labeled_intervals_loop1, labels, maskSelect_arange, ok_bind, List.mapM_cons, mergeRow]
+    rcases hx : lastStarted x t0 with _ | lx
+    · simp [pick_none hx]; rfl
+    · obtain ⟨n, hn1, hn2⟩ := pick_some (fun l => l) hx
+      simp only [hn1, hn2, ok_bind]
+      rcases hy : lastStarted y t0 with _ | ly
+      · simp [pick_none hy]; rfl
+      · obtain ⟨m, hm1, hm2⟩ := pick_some (fun l => l) hy
+        simp only [hm1, hm2, ok_bind]
+        have := ih (PyI.append ax lx) (PyI.append ay ly)
+        simp only [labels] at this
+        rw [this]
+        cases P.mapM (mergeRow x y) with
+        | error e => rfl
+        | ok out => simp [Except.map, PyI.append, bind, Except.bind, pure, Except.pure]
+
+theorem ravel_append (a b : Ivals) : ravel (a ++ b) = ravel a ++ ravel b := by
+  induction a with
+  | nil => rfl
+  | cons x r ih => simp [ravel, entriesP] at ih ⊢; exact ih
+
+theorem getItem_col0_zero {L : Type} (x : LI L) :
+    getItem (col0 (ivals x)) 0 = match x.head? with | some x0 => .ok x0.1 | none => .error .indexError := by
+  cases x <;> simp [col0, ivals]
+
+theorem getItem_col1_last {L : Type} (x : LI L) :
+    getItem (col1 (ivals x)) (-1) = match x.getLast? with | some xn => .ok xn.2.1 | none => .error .indexError := by
+  rw [getItem_neg_one]
+  simp only [col1, ivals, List.map_map, List.getLast?_map]
+  cases x.getLast? <;> rfl
+
+theorem merge_nonempty_case (x y : LI String) {x0 xn y0 yn : Rat × Rat × String} (hx0 : x.head? = some x0)
+    (hxn : x.getLast? = some xn) (hy0 : y.head? = some y0) (hyn : y.getLast? = some yn) :
+    Mir.Gen.util.merge_labeled_intervals (ivals x) (labels x) (ivals y) (labels y)
+      = (mergeLabeled x y).map fun out =>
+          (out.map fun r => (r.1, r.2.1), out.map fun r => r.2.2.1, out.map fun r => r.2.2.2) := by
+  simp only [Mir.Gen.util.merge_labeled_intervals, mergeLabeled, getItem_col0_zero, getItem_col1_last, hx0, hxn, hy0, hyn,
+    ok_bind, zip_slices, unique, ravel_append, ravel_ivals, mergeRows_eq, merge_loop_eq]
+  by_cases ha : x0.1 = y0.1 ∧ xn.2.1 = yn.2.1
+  · have hb : List.elem false [decide (x0.1 = y0.1), decide (xn.2.1 = yn.2.1)] = false := by simp [ha.1, ha.2]
+    simp only [hb, if_pos ha]
+    rcases hm : (pairs (usort (entries x ++ entries y))).mapM (mergeRow x y) with e | out
+    · rfl
+    · simp [Except.map, bind, Except.bind, pure, Except.pure, mergeRow_mapM_fst x y _ hm]
+  · have hb : List.elem false [decide (x0.1 = y0.1), decide (xn.2.1 = yn.2.1)] = true := by
+      rcases not_and_or.1 ha with h | h <;> simp [h]
+    simp only [hb, if_neg ha]
+    rfl
+
+/-- `util.merge_labeled_intervals` for ALL pairs of labelled interval lists (empty, misaligned, gapped, overlapping
+    included; value or exception class) -/
+theorem merge_labeled_intervals_eq_model (x y : LI String) :
+    Mir.Gen.util.merge_labeled_intervals (ivals x) (labels x) (ivals y) (labels y)
+      = (mergeLabeled x y).map fun out =>
+          (out.map fun r => (r.1, r.2.1), out.map fun r => r.2.2.1, out.map fun r => r.2.2.2) := by
+  cases x with
+  | nil => simp [Mir.Gen.util.merge_labeled_intervals, mergeLabeled, col0, ivals]; rfl
+  | cons x0 rx =>
+    cases y with
+    | nil => simp [Mir.Gen.util.merge_labeled_intervals, mergeLabeled, col0, ivals]; rfl
+    | cons y0 ry =>
+      rcases hxl : (x0 :: rx).getLast? with _ | xn
+      · simp at hxl
+      rcases hyl : (y0 :: ry).getLast? with _ | yn
+      · simp at hyl
+      exact merge_nonempty_case _ _ rfl hxl rfl hyl
+
+/-! ### index_labels -/
+
+theorem nodup_sortedSet (L : List String) : (sortedSet L).Nodup := by
+  unfold sortedSet
+  refine List.Nodup.map ?_ (nodup_sortedUniq_lo _)
+  intro a b h
+  have := congrArg String.toList h
+  simpa using this
+
+theorem mem_sortedSet {L : List String} {s : String} : s ∈ sortedSet L ↔ s ∈ L := by
+  unfold sortedSet
+  constructor
+  · intro h
+    obtain ⟨l, hl, rfl⟩ := List.mem_map.1 h
+    obtain ⟨s', hs', rfl⟩ := List.mem_map.1 (Mir.Segment.mem_sortedUniq.1 hl)
+    simpa using hs'
+  · intro h
+    exact List.mem_map.2 ⟨s.toList, Mir.Segment.mem_sortedUniq.2 (List.mem_map.2 ⟨s, h, rfl⟩), by simp⟩
+
+/-- the dict-building loop: afterwards `label_to_index[s]` is the position of `s` among the enumerated labels and
+    `index_to_label[i]` is the `i`-th of them -/
+theorem index_loop_spec (U : List String) (hU : U.Nodup) (k : Nat) (d1 : List (String × Nat)) (d2 : List (Nat × String)) :
+    ∃ d1' d2', Mir.Gen.util.index_labels_loop1 ((U.zipIdx k).map fun p => (p.2, p.1)) d1 d2 = .ok (d1', d2') ∧
+      (∀ s, d1'.lookup s = if s ∈ U then some (k + U.idxOf s) else d1.lookup s) ∧
+      (∀ s ∈ U, d2'.lookup (k + U.idxOf s) = some s) := by
+  induction U generalizing k d1 d2 with
+  | nil => exact ⟨d1, d2, rfl, by simp, by simp⟩
+  | cons u U ih =>
+    obtain ⟨hu, hU'⟩ := List.nodup_cons.1 hU
+    obtain ⟨d1', d2', h0, h1, h2⟩ := ih hU' (k + 1) (dictSet d1 u k) (dictSet d2 k u)
+    refine ⟨d1', d2', by simpa [List.zipIdx_cons, Mir.Gen.util.index_labels_loop1] using h0, ?_, ?_⟩
+    · intro s
+      rw [h1 s]
+      by_cases hs : s ∈ U
+      · have hne : u ≠ s := fun e => hu (e ▸ hs)
+        simp [hs, List.idxOf_cons, hne]; omega
+      · by_cases hsu : s = u
+        · subst hsu; simp [hs, dictSet, List.lookup_cons]
+        · have hb : (s == u) = false := by simpa using hsu
+          simp [hs, hsu, dictSet, List.lookup_cons, hb]
+    · intro s hs
+      rcases List.mem_cons.1 hs with rfl | hs'
+      · -- the entry written in this iteration survives: later keys are `> k`
+        have hk : ∀ (V : List String) (j : Nat) (e1 : List (String × Nat)) (e2 : List (Nat × String)),
+            k < j → ∀ r, Mir.Gen.util.index_labels_loop1 ((V.zipIdx j).map fun p => (p.2, p.1)) e1 e2 = .ok r →
+              r.2.lookup k = e2.lookup k := by
+          intro V
+          induction V with
+          | nil => intro j e1 e2 _ r hr; cases hr; rfl
+          | cons v V ihV =>
+            intro j e1 e2 hj r hr
+            simp only [List.zipIdx_cons, List.map_cons, Mir.Gen.util.index_labels_loop1] at hr
+            have := ihV (j + 1) _ _ (by omega) r hr
+            rw [this]
+            have hkj : (k == j) = false := by simp; omega
+            simp [dictSet, List.lookup_cons, hkj]
+        have := hk U (k + 1) _ _ (by omega) _ h0
+        simp only at this
+        simp [this, dictSet, List.lookup_cons]
+      · have hne : u ≠ s := fun e => hu (e ▸ hs')
+        have := h2 s hs'
+        simp [List.idxOf_cons, hne]
+        rw [← this]; congr 1; omega
+
+/-- `util.index_labels`, both case modes: the indices are the positions in `sorted(set(·))` of the (case-folded) labels
+    and the returned dict maps every index back to its label (`labels[i] == index_to_label[indices[i]]`) -/
+theorem index_labels_spec (ls : List String) (cs : Bool) :
+    let L := if cs then ls else ls.map lowerStr
+    ∃ d, Mir.Gen.util.index_labels ls cs = .ok (L.map fun s => (sortedSet L).idxOf s, d) ∧
+      ∀ s ∈ L, d.lookup ((sortedSet L).idxOf s) = some s := by
+  intro L
+  obtain ⟨d1, d2, h0, h1, h2⟩ := index_loop_spec (sortedSet L) (nodup_sortedSet L) 0 [] []
+  have hb : Mir.Gen.util.index_labels_block1 cs ls = .ok L := by
+    cases cs <;> simp [Mir.Gen.util.index_labels_block1, L] <;> rfl
+  have hm : List.mapM (fun s => (do let t ← dictGet d1 s; pure t : Py Nat)) L
+      = .ok (L.map fun s => (sortedSet L).idxOf s) := by
+    have := mapM_ok_of (fun s => (do let t ← dictGet d1 s; pure t : Py Nat)) L id
+      (fun s => (sortedSet L).idxOf s) (by
+        intro s hs
+        have : s ∈ sortedSet L := mem_sortedSet.2 hs
+        simp [dictGet, h1 s, this])
+    simpa using this
+  refine ⟨d2, ?_, ?_⟩
+  · simp only [Mir.Gen.util.index_labels, hb, ok_bind, enumerate]
+    rw [h0]
+    simp only [ok_bind, hm]
+    rfl
+  · intro s hs
+    have := h2 s (mem_sortedSet.2 hs)
+    simpa using this
+
+/-- `util.index_labels(labels)[0]` (the default, case-insensitive mode) is the hand model's index sequence, for ALL
+    label lists -/
+theorem index_labels_eq_model (ls : List String) :
+    (Mir.Gen.util.index_labels ls false).map (·.1)
+      = .ok (Mir.Segment.indexLabels (ls.map fun s => some s.toList)) := by
+  obtain ⟨d, hd, _⟩ := index_labels_spec ls false
+  simp only [Bool.false_eq_true, if_false] at hd
+  rw [hd]
+  simp only [Except.map, Mir.Segment.indexLabels, Mir.Segment.indexNorm, List.map_map]
+  congr 1
+  apply List.map_congr_left
+  intro s _
+  have hL : List.map (Mir.Segment.normLabel ∘ fun s => some s.toList) ls
+      = (ls.map lowerStr).map String.toList := by
+    simp [List.map_map, Function.comp_def, Mir.Segment.normLabel, lowerStr]
+  simp only [Function.comp_def] at hL ⊢
+  rw [hL]
+  unfold sortedSet
+  have hinj : Function.Injective String.ofList := by
+    intro a b h
+    have := congrArg String.toList h
+    simpa using this
+  have := idxOf_map_inj String.ofList hinj
+    (Mir.Segment.sortedUniq ((ls.map lowerStr).map String.toList)) (lowerStr s).toList
+  simp only [String.ofList_toList] at this
+  rw [this]
+  simp [lowerStr, Mir.Segment.normLabel]
+
 /-! ### the C13 headline statements, on the translated definitions -/
 
 section headlines
@@ -582,6 +857,89 @@ theorem gen_durations_pos {iv : Ivals} {ds : List Rat} (h : Mir.Gen.util.interva
       obtain ⟨x, hx, rfl⟩ := List.mem_map.1 hdm
       exact sub_pos.2 (hpos x hx)
 
+/-- the translated `interpolate_intervals`: each time point gets the label of the last closed interval containing it,
+    else the fill value (any intervals, any non-decreasing grid); an unsorted grid is a `ValueError` -/
+theorem gen_interpolate_spec (xs : LI String) (tps : List Rat) (fill : Option String)
+    (h : isNondecreasing tps = true) :
+    Mir.Gen.util.interpolate_intervals (ivals xs) (labels xs) tps fill
+      = .ok (tps.map fun t => (labelAtC (rowsO xs) t).getD fill) := by
+  rw [interpolate_intervals_eq_model, interpolate_spec _ _ _ h]
+
+theorem gen_interpolate_unsorted_raises (xs : LI String) (tps : List Rat) (fill : Option String)
+    (h : isNondecreasing tps = false) :
+    Mir.Gen.util.interpolate_intervals (ivals xs) (labels xs) tps fill = .error .valueError := by
+  rw [interpolate_intervals_eq_model, interpolate_unsorted_raises _ _ _ h]
+
+/-- the translated `intervals_to_samples`: times `i·size + offset` for `i < ⌊max/size⌋`, each labelled as above -/
+theorem gen_samples_spec (xs : LI String) (offset size : Rat) (fill : Option String) (m : Rat)
+    (hm : maxL (entries xs) = some m) (hs : 0 < size) :
+    Mir.Gen.util.intervals_to_samples (ivals xs) (labels xs) offset size fill
+      = .ok (sampleTimes (m / size).floor.toNat size offset,
+             (sampleTimes (m / size).floor.toNat size offset).map fun t => (labelAtC (rowsO xs) t).getD fill) := by
+  rw [intervals_to_samples_eq_model, samples_spec _ _ _ _ m (by rw [entries_rowsO]; exact hm) hs]
+
+/-- C12 on the translated sampling: splitting an interval at an interior point (both pieces keep the label) changes
+    neither the sample times nor any sample label -/
+theorem gen_samples_split_invariant (x₁ x₂ : LI String) {s r e : Rat} (l : String) (h1 : s ≤ r) (h2 : r ≤ e)
+    (offset size : Rat) (fill : Option String) :
+    Mir.Gen.util.intervals_to_samples (ivals (x₁ ++ (s, r, l) :: (r, e, l) :: x₂))
+        (labels (x₁ ++ (s, r, l) :: (r, e, l) :: x₂)) offset size fill
+      = Mir.Gen.util.intervals_to_samples (ivals (x₁ ++ (s, e, l) :: x₂)) (labels (x₁ ++ (s, e, l) :: x₂))
+          offset size fill := by
+  rw [intervals_to_samples_eq_model, intervals_to_samples_eq_model]
+  have e1 : rowsO (x₁ ++ (s, r, l) :: (r, e, l) :: x₂) = rowsO x₁ ++ (s, r, some l) :: (r, e, some l) :: rowsO x₂ := by
+    simp [rowsO]
+  have e2 : rowsO (x₁ ++ (s, e, l) :: x₂) = rowsO x₁ ++ (s, e, some l) :: rowsO x₂ := by simp [rowsO]
+  rw [e1, e2]
+  exact Mir.C12.samples_split_invariant _ _ (some l) h1 h2 offset size fill
+
+/-- the translated `merge_labeled_intervals` of two contiguous segmentations of one span is their common refinement -/
+theorem gen_merge_refinement {lo hi : Rat} {x y : LI String} (hx : Contig lo x) (hy : Contig lo y)
+    {zx zy : Rat × Rat × String} (hzx : x.getLast? = some zx) (hzy : y.getLast? = some zy)
+    (hxe : zx.2.1 = hi) (hye : zy.2.1 = hi) :
+    ∃ out : List (Rat × Rat × String × String),
+      Mir.Gen.util.merge_labeled_intervals (ivals x) (labels x) (ivals y) (labels y)
+        = .ok (ivals out, out.map (·.2.2.1), out.map (·.2.2.2)) ∧
+      ivals out = pairs (usort (entries x ++ entries y)) ∧
+      Contig lo out ∧
+      (∀ row ∈ out, ∀ t, row.1 ≤ t → t < row.2.1 →
+        labelAt x t = some row.2.2.1 ∧ labelAt y t = some row.2.2.2) ∧
+      qsum ((ivals out).map fun p => p.2 - p.1) = hi - lo := by
+  obtain ⟨out, ho, h⟩ := merge_refinement hx hy hzx hzy hxe hye
+  exact ⟨out, by rw [merge_labeled_intervals_eq_model, ho]; rfl, h⟩
+
+/-- annotations whose first starts or last ends differ are rejected with `ValueError` by the translated function -/
+theorem gen_merge_misaligned_raises {x y : LI String} {x0 xn y0 yn : Rat × Rat × String} (h1 : x.head? = some x0)
+    (h2 : x.getLast? = some xn) (h3 : y.head? = some y0) (h4 : y.getLast? = some yn)
+    (hmis : x0.1 ≠ y0.1 ∨ xn.2.1 ≠ yn.2.1) :
+    Mir.Gen.util.merge_labeled_intervals (ivals x) (labels x) (ivals y) (labels y) = .error .valueError := by
+  rw [merge_labeled_intervals_eq_model, merge_misaligned_raises h1 h2 h3 h4 hmis]
+  rfl
+
+/-- C12 on the translated `adjust_intervals`: cutting one interval of the annotation in two gives the same exception, the
+    same rows, or the same rows with one row cut in two (the model results below ARE what the translated function
+    returns, by `adjust_intervals_eq_model`) -/
+theorem gen_adjust_intervals_split (y₁ y₂ : LI String) {s r e : Rat} (l : String) (h1 : s ≤ r) (h2 : r ≤ e)
+    (hord : ∀ row ∈ y₂, e ≤ row.1) (tmin tmax : Option Rat) (sl el : String) :
+    ∃ r1 r2 : Py (LI String),
+      Mir.Gen.util.adjust_intervals (ivals (y₁ ++ (s, r, l) :: (r, e, l) :: y₂))
+          (some (labels (y₁ ++ (s, r, l) :: (r, e, l) :: y₂))) tmin tmax sl el
+        = r1.map (fun out => (ivals out, some (labels out))) ∧
+      Mir.Gen.util.adjust_intervals (ivals (y₁ ++ (s, e, l) :: y₂)) (some (labels (y₁ ++ (s, e, l) :: y₂))) tmin tmax sl el
+        = r2.map (fun out => (ivals out, some (labels out))) ∧
+      PyRel SplitOrEq r1 r2 := by
+  refine ⟨_, _, ?_, ?_, Mir.C12.adjust_intervals_split y₁ y₂ l h1 h2 hord tmin tmax sl el⟩
+  · cases y₁ with
+    | nil => exact adjust_intervals_eq_model _ _ tmin tmax sl el
+    | cons a y => exact adjust_intervals_eq_model _ _ tmin tmax sl el
+  · cases y₁ with
+    | nil => exact adjust_intervals_eq_model _ _ tmin tmax sl el
+    | cons a y => exact adjust_intervals_eq_model _ _ tmin tmax sl el
+
+/-- the translated `generate_labels`: one synthetic label `prefix ++ str(i)` per item -/
+theorem generate_labels_spec (items : List Rat) (pre : String) :
+    Mir.Gen.util.generate_labels items pre = .ok ((List.range items.length).map fun n => pre ++ toString n) := rfl
+
 end headlines
 
 /-! ### non-vacuity: the translated definitions compute -/
@@ -596,6 +954,12 @@ example : Mir.Gen.util.adjust_events [(5 : Rat)] (some ["a"]) none (some 3) "__"
   decide +kernel
 
 example : Mir.Gen.util.boundaries_to_intervals [(0 : Rat), 1, 3] = .ok [(0, 1), (1, 3)] := by decide +kernel
+
+example : Mir.Gen.util.interpolate_intervals [((0 : Rat), (1 : Rat)), (2, 3)] ["a", "b"] [-1, 1, 3/2, 2, 3] none
+    = .ok [none, some "a", none, some "b", some "b"] := by decide +kernel
+
+example : Mir.Gen.util.merge_labeled_intervals [((0 : Rat), (2 : Rat)), (2, 4)] ["a", "b"] [((0 : Rat), (1 : Rat)), (1, 4)]
+    ["X", "Y"] = .ok ([(0, 1), (1, 2), (2, 4)], ["a", "a", "b"], ["X", "Y", "Y"]) := by decide +kernel
 
 example : Mir.Gen.util.intervals_to_durations [((0 : Rat), (1 : Rat)), (1, 1)] = .error .valueError := by
   decide +kernel
